@@ -370,6 +370,19 @@ def check_misc(c):
                     res.check(np.all(cnt[A > 0.2 * A.max()] > 0), 'many.coverage', dict(case, fn=nm),
                               '%s(m=%d) never drew one of the dominant entries (scale %g)' % (nm, m, scale))
             res.nt(('many', tuple(n), scale))
+    # the sample count may be given as a float (documented: int, float) and the shape as an array of floats
+    if d <= 3 and not c.get('many'):
+        res.ev()
+        case = dict(c, fn='float-count')
+        Yp = space.tt(n, [1] + [2] * (d - 1) + [1], 'pos', 0)
+        with warnings.catch_warnings():
+            warnings.simplefilter('ignore')
+            okf = np.array_equal(teneva.sample(Yp, 3.0, seed=1), teneva.sample(Yp, 3, seed=1)) if d >= 2 else True
+            okf = okf and (np.array_equal(teneva.sample_square(Yp, 2.0, unique=False, seed=1), teneva.sample_square(Yp, 2, unique=False, seed=1)) if d >= 2 else True)
+            okf = okf and np.array_equal(teneva.sample_lhs(np.array(n, dtype=float), 5.0, seed=1), teneva.sample_lhs(n, 5, seed=1))
+            okf = okf and np.array_equal(teneva.sample_rand(np.array(n, dtype=float), 4.0, seed=1), teneva.sample_rand(n, 4, seed=1))
+            okf = okf and np.array_equal(teneva.sample_rand_poi([0.] * d, [1.] * d, 4.0, seed=1), teneva.sample_rand_poi([0.] * d, [1.] * d, 4, seed=1))
+        res.check(bool(okf), 'float_count', case, 'a float sample count / float shape array gives a different result than the integer one')
     for sd in c['seeds']:
         for m in c['ms']:
             res.ev()
